@@ -330,4 +330,15 @@ def MultisetEqI (es : List Exp) (calls : List Call) : Prop :=
 instance (es : List Exp) : Decidable (UnambiguousI es) := by unfold UnambiguousI; infer_instance
 instance (es : List Exp) (calls : List Call) : Decidable (MultisetEqI es calls) := by unfold MultisetEqI; infer_instance
 
+/-! ## tests run with `MockSupportPlugin` installed -/
+
+/-- every failure of one test: those of its body, then those of the plugin's post action -/
+def testVerdict (body : World → BodyResult) (w : World) : List String :=
+  (body w).msgs ++ (pluginPost (body w)).1
+
+/-- a run of several tests; the mock is whatever the previous test's post action left -/
+def pluginRun : List (World → BodyResult) → World → List (List String)
+  | [], _ => []
+  | b :: rest, w => testVerdict b w :: pluginRun rest (pluginPost (b w)).2
+
 end Mock
